@@ -3,6 +3,11 @@ package main
 import (
 	"bytes"
 	"fmt"
+	"io/fs"
+	"os"
+	"path/filepath"
+	"regexp"
+	"sort"
 	"go/ast"
 	"go/printer"
 	"go/token"
@@ -45,7 +50,7 @@ func c04LeanMapped(idents []string, table map[string]string) (string, []string) 
 }
 
 // c04Src renders an expression exactly as written (exprString of main.go drops call arguments)
-func c04Src(e ast.Expr) string {
+func c04Src(e ast.Node) string {
 	var b bytes.Buffer
 	_ = printer.Fprint(&b, token.NewFileSet(), e)
 	return b.String()
@@ -334,5 +339,143 @@ func extractC04() *lean {
 	l.facts["policy"] = map[string]interface{}{"maxCredLen": maxLen, "acceptableAlgs": algRaw, "forbiddenHdrs": forbRaw, "sigRule": sigRuleRaw,
 		"mandatory": mandRaw, "maxLifetimeMin": lifetimes, "expMustBePositive": expPositive}
 	l.def("bestPracticesConditions", "List String", leanStrList(bpConds), bpConds)
+	// ---------------- every route registration in the repository (non-test code): first path segments
+	routeRe := regexp.MustCompile(`\.(GET|POST|PUT|DELETE|PATCH|HEAD|OPTIONS|CONNECT|TRACE|Any|Add)\((http\.Method[A-Za-z]+, *)?(baseURL *\+ *)?"(/[^"]*)"`)
+	segs := map[string]bool{}
+	_ = filepath.WalkDir(repo, func(path string, d fs.DirEntry, err error) error {
+		if err != nil {
+			return nil
+		}
+		if d.IsDir() {
+			if n := d.Name(); n == ".git" || n == "vendor" || n == "docs" || n == "e2e-tests" || n == "node_modules" {
+				return filepath.SkipDir
+			}
+			return nil
+		}
+		if !strings.HasSuffix(path, ".go") || strings.HasSuffix(path, "_test.go") || strings.Contains(path, "zz_verif") {
+			return nil
+		}
+		b, err := os.ReadFile(path)
+		if err != nil {
+			return nil
+		}
+		for _, m := range routeRe.FindAllSubmatch(b, -1) {
+			p := strings.TrimPrefix(string(m[4]), "/")
+			if i := strings.Index(p, "/"); i >= 0 {
+				p = p[:i]
+			}
+			segs["/"+p] = true
+		}
+		return nil
+	})
+	var segList []string
+	for k := range segs {
+		segList = append(segList, k)
+	}
+	sort.Strings(segList)
+	var segLean []string
+	for _, b := range segList {
+		segLean = append(segLean, c04LeanStr(b))
+	}
+	l.def("registeredFirstSegments", "List Str", "["+strings.Join(segLean, ", ")+"]", segList)
+
+	// ---------------- http/config.go: the default listener addresses
+	_, cfgF := parseFile("http/config.go")
+	defInt, defPub := "MISSING", "MISSING"
+	if fd := funcDecl(cfgF, "DefaultConfig"); fd != nil {
+		ast.Inspect(fd, func(n ast.Node) bool {
+			if kv, ok := n.(*ast.KeyValueExpr); ok && exprString(kv.Key) == "Address" {
+				if v, ok := c04StrLit(kv.Value); ok {
+					// the enclosing composite literal tells which one: InternalConfig / PublicConfig
+					_ = v
+				}
+			}
+			if cl, ok := n.(*ast.CompositeLit); ok {
+				t := exprString(cl.Type)
+				for _, e := range cl.Elts {
+					if kv, ok := e.(*ast.KeyValueExpr); ok && exprString(kv.Key) == "Address" {
+						if v, ok := c04StrLit(kv.Value); ok {
+							if t == "InternalConfig" {
+								defInt = v
+							} else if t == "PublicConfig" {
+								defPub = v
+							}
+						}
+					}
+				}
+			}
+			return true
+		})
+	}
+	l.def("defaultInternalAddress", "String", fmt.Sprintf("%q", defInt), defInt)
+	l.def("defaultPublicAddress", "String", fmt.Sprintf("%q", defPub), defPub)
+
+	// ---------------- applyAuthMiddleware: the auth types it knows (switch cases) and what the default case does
+	var authCases []string
+	defaultErr := false
+	if fd := funcDecl(eng, "applyAuthMiddleware"); fd != nil {
+		ast.Inspect(fd, func(n ast.Node) bool {
+			if sw, ok := n.(*ast.SwitchStmt); ok && exprString(sw.Tag) == "config.Type" {
+				for _, st := range sw.Body.List {
+					cc := st.(*ast.CaseClause)
+					if cc.List == nil {
+						defaultErr = c04ReturnsError(&ast.BlockStmt{List: cc.Body})
+					}
+					for _, e := range cc.List {
+						authCases = append(authCases, c04Src(e))
+					}
+				}
+			}
+			return true
+		})
+	}
+	l.def("authTypeCases", "List String", leanStrList(authCases), authCases)
+	l.def("authTypeDefaultIsError", "Bool", c04LeanBool(defaultErr), defaultErr)
+
+	// ---------------- authorized_keys.go: minimum RSA size, accepted key types
+	_, akF := parseFile("http/tokenV2/authorized_keys.go")
+	minRSA := "0"
+	for _, d := range akF.Decls {
+		if gd, ok := d.(*ast.GenDecl); ok && gd.Tok == token.CONST {
+			for _, sp := range gd.Specs {
+				vs := sp.(*ast.ValueSpec)
+				for i, n := range vs.Names {
+					if n.Name == "minimumRSAKeySize" && i < len(vs.Values) {
+						minRSA = exprString(vs.Values[i])
+					}
+				}
+			}
+		}
+	}
+	l.def("minimumRSAKeySize", "Nat", minRSA, minRSA)
+	var keyTypes []string
+	if fd := funcDecl(akF, "keyIsSecure"); fd != nil {
+		ast.Inspect(fd, func(n ast.Node) bool {
+			if cc, ok := n.(*ast.CaseClause); ok {
+				for _, e := range cc.List {
+					keyTypes = append(keyTypes, c04Src(e))
+				}
+			}
+			return true
+		})
+		for _, c := range []string{} {
+			_ = c
+		}
+	}
+	l.def("keyIsSecureTypes", "List String", leanStrList(keyTypes), keyTypes)
+	var pakConds []string
+	if fd := funcDecl(akF, "parseAuthorizedKeys"); fd != nil {
+		ast.Inspect(fd, func(n ast.Node) bool {
+			if is, ok := n.(*ast.IfStmt); ok {
+				c := c04Src(is.Cond)
+				if is.Init != nil {
+					c = c04Src(is.Init) + "; " + c
+				}
+				pakConds = append(pakConds, strings.Join(strings.Fields(c), " "))
+			}
+			return true
+		})
+	}
+	l.def("parseAuthorizedKeysConds", "List String", leanStrList(pakConds), pakConds)
 	return l
 }
